@@ -90,12 +90,13 @@ int cmdRun(int argc, char** argv) {
 	size_t maxShapes = strtoul(argv[2], nullptr, 10);
 	auto files = sampleFiles();
 	{ Out trunc(outPath); }
-	const char* dests[] = {"same", "fresh", "other", "partial-skeleton"};
+	const char* dests[] = {"same", "fresh", "other", "partial-skeleton", "skeleton-root-node", "model-space-flag"};
+	const size_t ND = 6;
 	size_t crashes = runForkedCases(
-		files.size() * 4, outPath, 300,
+		files.size() * ND, outPath, 300,
 		[&](size_t i, std::string& out) {
-			const std::string& fn = files[i / 4];
-			const char* dest = dests[i % 4];
+			const std::string& fn = files[i / ND];
+			const char* dest = dests[i % ND];
 			NifFile probe;
 			if (probe.Load(samplePath(fn)) != 0) return;
 			auto names = probe.GetShapeNames();
@@ -126,13 +127,38 @@ int cmdRun(int argc, char** argv) {
 					other.AddNode(bones[0], t);
 					dst = &other;
 				}
-				else if (destName == "fresh" && false) {
+				else if (destName == "skeleton-root-node") {
+					// the skin's skeleton root is a node of its own below the scene root, the destination is a fresh model
+					NiShape* sh = byName(src, shapeName);
+					if (!sh || !sh->IsSkinned()) continue;
+					MatTransform t;
+					auto sr = src.AddNode("SkeletonRootNode", t);
+					auto& sh_hdr = src.GetHeader();
+					if (auto si = sh_hdr.GetBlock<NiSkinInstance>(sh->SkinInstanceRef())) si->targetRef.index = src.GetBlockID(sr);
+					else if (auto bi = sh_hdr.GetBlock<BSSkinInstance>(sh->SkinInstanceRef())) bi->targetRef.index = src.GetBlockID(sr);
+					else
+						continue;
+					other.Create(src.GetHeader().GetVersion());
+					dst = &other;
+				}
+				else if (destName == "model-space-flag") {
+					// Fallout 4 and later: a shader flagged for model-space normals on a shape that carries normals (in the
+					// Skyrim versions the library drops the normals of such a clone by design)
+					auto& v = src.GetHeader().GetVersion();
+					if (!(v.IsFO4() || v.IsFO76() || v.Stream() >= 130)) continue;
+					NiShape* sh = byName(src, shapeName);
+					auto shader = sh ? src.GetShader(sh) : nullptr;
+					auto bssp = dynamic_cast<BSShaderProperty*>(shader);
+					if (!bssp || !sh->HasNormals()) continue;
+					bssp->shaderFlags1 |= (1u << 12);
+					other.Create(src.GetHeader().GetVersion());
+					dst = &other;
 				}
 				else if (destName == "other") {
 					// another loaded model of the same version family: the next sample with the same version
 					bool found = false;
 					for (size_t k = 1; k < files.size() && !found; k++) {
-						const std::string& cand = files[(i / 4 + k) % files.size()];
+						const std::string& cand = files[(i / ND + k) % files.size()];
 						NifFile tmp;
 						if (tmp.Load(samplePath(cand)) == 0 && versionName(tmp.GetHeader().GetVersion()) == versionName(src.GetHeader().GetVersion())
 							&& tmp.GetHeader().GetVersion().Stream() == src.GetHeader().GetVersion().Stream()) {
@@ -179,20 +205,33 @@ int cmdRun(int argc, char** argv) {
 						ev.add("srcBefore", srcBefore).add("srcAfter", srcAfter);
 						// identical geometry through the accessors
 						JV a = jparse(srcGeom), b = jparse(projectShape(*dst, clone, gid));
-						bool geomEqual = toJson(a["pcid"]) == toJson(b["pcid"]) && toJson(a["tris"]) == toJson(b["tris"]) && toJson(a["uvq"]) == toJson(b["uvq"])
-										 && toJson(a["textures"]) == toJson(b["textures"]) && toJson(a["weights"]) == toJson(b["weights"]);
+						auto sameGeom = [](const JV& x, const JV& y) {
+							return toJson(x["pcid"]) == toJson(y["pcid"]) && toJson(x["tris"]) == toJson(y["tris"]) && toJson(x["uvq"]) == toJson(y["uvq"])
+								   && toJson(x["textures"]) == toJson(y["textures"]) && toJson(x["weights"]) == toJson(y["weights"])
+								   && toJson(x["acid"]) == toJson(y["acid"]) && toJson(x["lens"]) == toJson(y["lens"]);
+						};
+						bool geomEqual = sameGeom(a, b);
 						ev.add("geomEqual", geomEqual);
 						NifFile copy(*dst);
 						NifFile re;
 						bool ok = loadFromString(re, saveToString(copy, true, true)) == 0 && byName(re, cloneName) != nullptr;
 						ev.add("reloadHasClone", ok);
+						// ... and the reloaded clone is the clone: compared with the destination reloaded before (normal form)
+						bool reloadSame = true;
+						if (ok) {
+							JV rb = jparse(projectShape(re, byName(re, cloneName), gid));
+							NifFile copy2(*dst), re2;
+							if (loadFromString(re2, saveToString(copy2, true, true)) == 0 && byName(re2, cloneName))
+								reloadSame = toJson(rb["tris"]) == toJson(b["tris"]) && toJson(rb["lens"]) == toJson(b["lens"]) && toJson(rb["pcid"]) == toJson(b["pcid"]);
+						}
+						ev.add("reloadSame", reloadSame);
 					}
 					out += ev.done() + "\n";
 				}
 			}
 		},
 		[&](size_t i, const std::string& why, FILE* out) {
-			fprintf(out, "{\"e\":\"crash\",\"file\":%s,\"dest\":\"%s\",\"why\":%s}\n", J::str(files[i / 4]).s.c_str(), dests[i % 4], J::str(why).s.c_str());
+			fprintf(out, "{\"e\":\"crash\",\"file\":%s,\"dest\":\"%s\",\"why\":%s}\n", J::str(files[i / ND]).s.c_str(), dests[i % ND], J::str(why).s.c_str());
 		});
 	printf("{\"files\":%zu,\"crashes\":%zu}\n", files.size(), crashes);
 	return 0;
